@@ -19,6 +19,27 @@ theorem atHeight_next (hf : flowOk md hm = true) {vm s2 : Vm} {st : AbsSt} {k : 
   refine ⟨⟨hr, st', by rw [hip]; exact e1, ?_⟩, by rw [hip]; exact e3⟩
   rw [hip, fnParamsAt_same e3, hpp, hsp, e2]; omega
 
+/-- … with the edge facts -/
+theorem atHeight_edge (hf : flowOk md hm = true) {vm s2 : Vm} {st : AbsSt} {k : Nat} {i : Instr}
+    (hi : md.code[vm.ip]? = some i)
+    (hinv : vm.sp = vm.pp + (fnParamsAt md vm.ip : Int) + (st.h : Int))
+    (hk : hAt (funcStarts md) hm vm.ip (vm.ip + 1) k = true)
+    (hm' : mAt hm (vm.ip + 1) (marksNext md hm vm.ip) = true)
+    (hr : s2.running = 1) (hip : s2.ip = vm.ip + 1) (hpp : s2.pp = vm.pp)
+    (hsp : s2.sp = vm.sp - (st.h : Int) + (k : Int)) :
+    AtHeight md hm s2 ∧ EdgeOk md hm vm.ip s2.ip := by
+  obtain ⟨h1, h2⟩ := atHeight_next hf hinv hk hr hip hpp hsp
+  refine ⟨h1, ?_⟩
+  rw [hip] at h2 ⊢
+  exact edge_next hi h2 hm'
+
+/-- the edge to a jump target -/
+theorem edge_jump {a t : Nat} {i : Instr} {st : AbsSt} (hi : md.code[a]? = some i) (hs : hm[a]? = some (some st))
+    (hop : i.op = .JUMPZ ∨ i.op = .JUMP) (hsame : sameFn (funcStarts md) a t = true) (hm' : mAt hm t st.marks = true)
+    (hrun : intRun md t = []) : EdgeOk md hm a t := by
+  refine ⟨hsame, ?_, Or.inl hrun⟩
+  rw [mAt_marksAt hm', marksNext_other hi hs (by rcases hop with h | h <;> rw [h] <;> decide) (by rcases hop with h | h <;> rw [h] <;> decide)]
+
 /-- instructions of the effect table other than `JUMPZ` -/
 theorem succ_table (hf : flowOk md hm = true) (orc : Oracle) (vm vm' : Vm) (i : Instr) (st : AbsSt) (p q : Nat)
     (hi : md.code[vm.ip]? = some i) (hs : hm[vm.ip]? = some (some st)) (he : simpleEffect i = some (p, q)) (hj : i.op ≠ .JUMPZ)
@@ -28,12 +49,16 @@ theorem succ_table (hf : flowOk md hm = true) (orc : Oracle) (vm vm' : Vm) (i : 
   refine succ_generic hf orc vm vm' i hi hstep (fun s2 h2 => ?_)
   obtain ⟨st', n1, n2, n3⟩ := flow_table hf hi hs he hj
   have hsame := frameOkAt_next hi hs he (frame_at hf hi)
+  have hmk := (pendOkAt_table hi hs he hj (flowOk_pend hf (lt_size_of_getElem? hi))).2
+  have hnm : i.op ≠ .MARK ∧ i.op ≠ .CLEAR_STACK := by
+    constructor <;> (intro hop; simp [simpleEffect, hop, binOpOf, unOpOf, convOf, nilCmpOf, strAddOf, arrOpOf, mkArrayElem] at he)
+  rw [← marksNext_other hi hs hnm.1 hnm.2] at hmk
   obtain ⟨f1, f2, f3, f4⟩ := Vm.simple_effect_sound md i orc p q he vm.sp { vm with ip := vm.ip + 1 } () s2 rfl h2
   obtain ⟨k1, k2⟩ := exec_keeps_ip md i orc p q he hj _ _ _ h2
   simp only at f1 f2 f3 k1 k2
   refine ⟨f2, f3, ?_, fun _ => k1, fun hr => ?_⟩
   · unfold RunOk at k2; omega
-  · refine ⟨⟨hr, st', by rw [k1]; exact n1, ?_⟩, by rw [k1]; exact hsame⟩
+  · refine ⟨⟨hr, st', by rw [k1]; exact n1, ?_⟩, by rw [k1]; exact edge_next hi hsame hmk⟩
     rw [k1, fnParamsAt_same hsame, f2]
     rcases f4 with f4 | f4 | f4
     · rw [f4]; omega
@@ -55,20 +80,25 @@ theorem succ_branch (hf : flowOk md hm = true) (orc : Oracle) (vm vm' : Vm) (i :
     simp only at a1 a2 a3 a4 a5 a6
     obtain ⟨h1, ⟨s1, e1, r1⟩, ⟨sj, ej, rj⟩⟩ := fz hop
     obtain ⟨g1, g2⟩ := frameOkAt_JUMPZ hi hs hop (frame_at hf hi)
+    obtain ⟨_, m1, m2, m3⟩ := pendOkAt_JUMPZ hi hs hop (flowOk_pend hf (lt_size_of_getElem? hi))
     refine ⟨a2, a3, Or.inl (by omega), fun h => by omega, fun hr => ?_⟩
     rcases a6 with a6 | a6
-    · refine ⟨⟨hr, s1, by rw [a6]; exact e1, ?_⟩, by rw [a6]; exact g2⟩
-      rw [a6, fnParamsAt_same g2, a2, a5]; omega
+    · refine ⟨⟨hr, s1, by rw [a6]; exact e1, ?_⟩, ?_⟩
+      · rw [a6, fnParamsAt_same g2, a2, a5]; omega
+      · rw [a6]
+        refine edge_next hi g2 ?_
+        rw [marksNext_other hi hs (by rw [hop]; decide) (by rw [hop]; decide)]; exact m2
     · rw [e] at a6
-      refine ⟨⟨hr, sj, by rw [a6]; exact ej, ?_⟩, by rw [a6]; exact g1⟩
+      refine ⟨⟨hr, sj, by rw [a6]; exact ej, ?_⟩, by rw [a6]; exact edge_jump hi hs (Or.inl hop) g1 m1 m3⟩
       rw [a6, fnParamsAt_same g1, a2, a5]; omega
   · obtain ⟨a1, a2, a3, a4, a5, a6⟩ := exec_jump md i orc hop _ _ h2
     simp only at a1 a2 a3 a4 a5 a6
     obtain ⟨sj, ej, rj⟩ := fj hop
     have g1 := frameOkAt_JUMP hi hs hop (frame_at hf hi)
+    obtain ⟨m1, m3⟩ := pendOkAt_JUMP hi hs hop (flowOk_pend hf (lt_size_of_getElem? hi))
     rw [e] at a6
     refine ⟨a2, a3, Or.inl (by omega), fun h => by omega, fun hr => ?_⟩
-    refine ⟨⟨hr, sj, by rw [a6]; exact ej, ?_⟩, by rw [a6]; exact g1⟩
+    refine ⟨⟨hr, sj, by rw [a6]; exact ej, ?_⟩, by rw [a6]; exact edge_jump hi hs (Or.inr hop) g1 m1 m3⟩
     rw [a6, fnParamsAt_same g1, a2, a5]; omega
 
 /-- `MARK`: five frame words pushed; control continues behind it at height `h + 5` -/
@@ -80,8 +110,10 @@ theorem succ_MARK (hf : flowOk md hm = true) (orc : Oracle) (vm vm' : Vm) (i : I
   obtain ⟨_, hk⟩ := frameOkAt_MARK hi hs hop (frame_at hf hi)
   obtain ⟨r1, r2, r3, r4, r5, r6, r7, _, _⟩ := markP_regs (exec_MARK md i orc hop _ _ h2)
   simp only at r1 r2 r3 r4 r5 r6 r7
+  have hmk := (pendOkAt_MARK hi hs hop (flowOk_pend hf (lt_size_of_getElem? hi))).1
+  rw [← marksNext_MARK hi hs hop] at hmk
   refine ⟨r3, r7, Or.inl (by omega), fun h => by omega, fun hr => ?_⟩
-  exact atHeight_next hf hinv hk hr r5 r3 (by rw [r1]; omega)
+  exact atHeight_edge hf hi hinv hk hmk hr r5 r3 (by rw [r1]; omega)
 
 /-- `SLIDE`, ordinary or the last-call slide into the parameter block -/
 theorem succ_SLIDE (hf : flowOk md hm = true) (orc : Oracle) (vm vm' : Vm) (i : Instr) (st : AbsSt)
@@ -90,12 +122,18 @@ theorem succ_SLIDE (hf : flowOk md hm = true) (orc : Oracle) (vm vm' : Vm) (i : 
     (hstep : (step md orc).run vm = .ok ((), vm')) : Succ md hm vm vm' := by
   refine succ_generic hf orc vm vm' i hi hstep (fun s2 h2 => ?_)
   have hc := frameOkAt_SLIDE hi hs hop (frame_at hf hi)
+  have hmk : mAt hm (vm.ip + 1) (marksNext md hm vm.ip) = true := by
+    rw [marksNext_other hi hs (by rw [hop]; decide) (by rw [hop]; decide)]
+    rcases pendOkAt_SLIDE hi hs hop (flowOk_pend hf (lt_size_of_getElem? hi)) with ⟨_, h⟩ | ⟨_, _, _, h⟩ | ⟨_, _, hn, h⟩
+    · exact h
+    · exact h
+    · rw [hn]; exact h
   rcases exec_SLIDE md i orc hop _ _ h2 with ⟨hq, hg0⟩ | ⟨hq, v1, hsl, hgc⟩
   · obtain ⟨b1, b2, b3, b4, b5, b6, b7, _⟩ := gcRunPure_regs hg0
     simp only at b1 b2 b3 b4 b5 b6 b7
     refine ⟨by omega, by omega, Or.inl (by omega), fun h => by omega, fun hr => ?_⟩
     rcases hc with ⟨_, hk⟩ | ⟨hq', _⟩ | ⟨hq', _⟩
-    · exact atHeight_next hf hinv hk hr (by omega) (by omega) (by omega)
+    · exact atHeight_edge hf hi hinv hk hmk hr (by omega) (by omega) (by omega)
     · exact absurd hq hq'
     · exact absurd hq hq'
   · obtain ⟨a1, a2, a3, a4, a5, a6, a7⟩ := slideP_regs hsl
@@ -104,8 +142,8 @@ theorem succ_SLIDE (hf : flowOk md hm = true) (orc : Oracle) (vm vm' : Vm) (i : 
     refine ⟨by omega, by omega, Or.inl (by omega), fun h => by omega, fun hr => ?_⟩
     rcases hc with ⟨hq', _⟩ | ⟨_, hle, hk⟩ | ⟨_, hlt, hh, _, _, hk⟩
     · exact absurd hq' hq
-    · exact atHeight_next hf hinv hk hr (by omega) (by omega) (by omega)
-    · exact atHeight_next hf hinv hk hr (by omega) (by omega) (by omega)
+    · exact atHeight_edge hf hi hinv hk hmk hr (by omega) (by omega) (by omega)
+    · exact atHeight_edge hf hi hinv hk hmk hr (by omega) (by omega) (by omega)
 
 /-- `CLEAR_STACK n`: the catch clause starts with `fp = pp` and `sp = pp + nparams`, whatever `sp` was -/
 theorem succ_CLEAR_STACK (hf : flowOk md hm = true) (orc : Oracle) (vm vm' : Vm) (i : Instr) (st : AbsSt)
@@ -119,7 +157,9 @@ theorem succ_CLEAR_STACK (hf : flowOk md hm = true) (orc : Oracle) (vm vm' : Vm)
   · refine succ_generic hf orc vm vm' i hi hstep (fun s2 h2 => ?_)
     rw [key s2 h2]
     refine ⟨rfl, rfl, Or.inl rfl, fun h => absurd h (by simp [clearStackP]), fun hr => ?_⟩
-    refine ⟨⟨rfl, st', e1, ?_⟩, e3⟩
+    have hmk := pendOkAt_CLEAR_STACK hi hs hop (flowOk_pend hf (lt_size_of_getElem? hi))
+    rw [← marksNext_CLEAR hi hs hop] at hmk
+    refine ⟨⟨rfl, st', e1, ?_⟩, edge_next hi e3 hmk⟩
     show vm.pp + (i.w0 : Int) = vm.pp + (fnParamsAt md (vm.ip + 1) : Int) + (st'.h : Int)
     rw [fnParamsAt_same e3, e2, hn]; unfold fnParamsAt; omega
   · obtain ⟨s2, he, hcase⟩ := step_exec md orc vm vm' i hi hstep
@@ -140,7 +180,9 @@ theorem succ_PUSH_PARAM (hf : flowOk md hm = true) (orc : Oracle) (vm vm' : Vm) 
   simp only at f2 f3 f4 k1 k2
   refine ⟨f3, f4, ?_, fun _ => k1, fun hr => ?_⟩
   · unfold RunOk at k2; omega
-  · exact atHeight_next hf hinv hk hr k1 f3 (by rw [f1]; omega)
+  · have hmk := pendOkAt_PUSH_PARAM hi hs hop (flowOk_pend hf (lt_size_of_getElem? hi))
+    rw [← marksNext_other hi hs (by rw [hop]; decide) (by rw [hop]; decide)] at hmk
+    exact atHeight_edge hf hi hinv hk hmk hr k1 f3 (by rw [f1]; omega)
 
 /-- `MK_INIT_ARRAY`, provided the extents on the stack are the constants the verifier recorded -/
 theorem succ_MK_INIT_ARRAY (hf : flowOk md hm = true) (orc : Oracle) (vm vm' : Vm) (i : Instr) (st : AbsSt)
@@ -158,7 +200,9 @@ theorem succ_MK_INIT_ARRAY (hf : flowOk md hm = true) (orc : Oracle) (vm vm' : V
   simp only at f1 f2 f3 f4 k1 k2
   refine ⟨f3, f4, ?_, fun _ => k1, fun hr => ?_⟩
   · unfold RunOk at k2; omega
-  · exact atHeight_next hf hinv hk hr k1 f3 (by rw [f1]; omega)
+  · obtain ⟨_, _, _, hmk, _⟩ := pendOkAt_MK_INIT_ARRAY hi hs hop (flowOk_pend hf (lt_size_of_getElem? hi))
+    rw [← marksNext_other hi hs (by rw [hop]; decide) (by rw [hop]; decide)] at hmk
+    exact atHeight_edge hf hi hinv hk hmk hr k1 f3 (by rw [f1]; omega)
 
 end
 end Never.Ver
